@@ -9,6 +9,7 @@ import (
 	"io/ioutil"
 	"os"
 	"path"
+	"strings"
 
 	"git.defalsify.org/vise.git/db"
 )
@@ -181,6 +182,10 @@ func (fdb *fsDb) Close(ctx context.Context) error {
 // create a key safe for the filesystem.
 func (fdb *fsDb) pathFor(ctx context.Context, lk *db.LookupKey) (fsLookupKey, error) {
 	var flk fsLookupKey
+	if strings.ContainsAny(string(lk.Default[1:]), "/\x00") {
+		// path.Join would clean the name: a/ and a, or names with /../ in them, are other entries' files
+		return flk, errors.New("key or session id cannot be represented as a file name")
+	}
 	lk.Default[0] += 0x30
 	flk.Default = path.Join(fdb.dir, string(lk.Default))
 	if lk.Translation != nil {
